@@ -307,9 +307,9 @@ theorem readOnly_inside_members :
     let pa := RS.leaf (some .string) false true false 0 none [] [] none none
     let m := RS.leaf none false false false 0 none [(['a'], pa)] [['a']] none none
     let other := RS.leaf (some .string) false false false 0 none [] [] none none
-    let sAny := RS.mk (some .object) false false false 0 none [] [] none none none [] [other, m] []
-    let sOne := RS.mk (some .object) false false false 0 none [] [] none none none [other, m] [] []
-    let sAll := RS.mk (some .object) false false false 0 none [] [] none none none [] [] [m]
+    let sAny := RS.mk (some .object) false false false 0 none [] [] none none none [] [other, m] [] none
+    let sOne := RS.mk (some .object) false false false 0 none [] [] none none none [other, m] [] [] none
+    let sAll := RS.mk (some .object) false false false 0 none [] [] none none none [] [] [m] none
     let sent := V.obj [(['a'], .str ['x'])]
     [sAny, sOne, sAll].all (fun s => visit false s (.obj []) && !visit false s sent && visit true s sent &&
       satReqB false s (.obj []) && !satReqB false s sent && satReqB true s sent) = true := by decide
@@ -319,10 +319,10 @@ member, and a nullable schema admits it before any composition is looked at (the
 example :
     let strN := RS.leaf (some .string) true false false 0 none [] [] none none
     let str := RS.leaf (some .string) false false false 0 none [] [] none none
-    visit false (RS.mk none false false false 0 none [] [] none none none [] [strN] []) .null = true ∧
-    visit false (RS.mk none false false false 0 none [] [] none none none [] [] [strN, str]) .null = false ∧
-    visit false (RS.mk none true false false 0 none [] [] none none none [] [] [str]) .null = true ∧
-    visit false (RS.mk none false false false 0 none [] [] none none (some strN) [] [strN] []) .null = false := by decide
+    visit false (RS.mk none false false false 0 none [] [] none none none [] [strN] [] none) .null = true ∧
+    visit false (RS.mk none false false false 0 none [] [] none none none [] [] [strN, str] none) .null = false ∧
+    visit false (RS.mk none true false false 0 none [] [] none none none [] [] [str] none) .null = true ∧
+    visit false (RS.mk none false false false 0 none [] [] none none (some strN) [] [strN] [] none) .null = false := by decide
 
 /-- **write-only properties are allowed in requests**: clearing every `writeOnly` flag of a schema (at any
 depth of properties, items and composition members) never changes the request-side verdict, for either
@@ -565,8 +565,8 @@ theorem mergeKV_nodup (l : List (Str × V)) (h : (keys l).Nodup) : mergeKV l = s
 theorem encoding_applies_inside_members :
     let arrInt := RS.leaf (some .array) false false false 0 none [] [] none (some (RS.leaf (some .integer) false false false 0 none [] [] none none))
     let m := RS.leaf none false false false 0 none [(['a'], arrInt)] [] none none
-    let sAll := RS.mk (some .object) false false false 0 none [] [] none none none [] [] [m]
-    let sAny := RS.mk (some .object) false false false 0 none [] [] none none none [] [m] []
+    let sAll := RS.mk (some .object) false false false 0 none [] [] none none none [] [] [m] none
+    let sAny := RS.mk (some .object) false false false 0 none [] [] none none none [] [m] [] none
     let encs := [(['a'], ({ style := "pipeDelimited".toList, explode := some false } : Enc))]
     let form := some [(['a'], ["1|2".toList])]
     [sAll, sAny].all (fun s =>
